@@ -174,6 +174,10 @@ class Interp(object):
             return ("member", n["name"], base)
         if k in ("InitListExpr", "CXXTemporaryObjectExpr", "CXXConstructExpr") and "callee" not in n:
             v = [self.ev(c) for c in n["c"]]
+            if len(v) == 1 and not isinstance(v[0], list) and \
+                    n.get("ty", "").replace("const ", "").split("::")[-1] in ("double", "float", "real_type", "int",
+                                                                               "unsigned int", "unsigned long"):
+                return v[0]      # T{x} for a scalar T
             # aggregate initialisation of Array<T, N> nests one list for the C array member
             while len(v) == 1 and isinstance(v[0], list):
                 v = v[0]
@@ -353,6 +357,8 @@ class Interp(object):
         va, vb = isinstance(a, list), isinstance(b, list)
         if va and vb and op in ("+", "-"):
             return [as_poly(x) + as_poly(y) if op == "+" else as_poly(x) - as_poly(y) for x, y in zip(a, b)]
+        if va and not vb and op in ("+", "-"):
+            return [as_poly(x) + as_poly(b) if op == "+" else as_poly(x) - as_poly(b) for x in a]
         if va and not vb and op in ("*", "/"):
             return [as_poly(x) * as_poly(b) if op == "*" else as_poly(x).div(b) for x in a]
         if vb and not va and op == "*":
